@@ -10,6 +10,7 @@ Correspondence (model `lean/CnfgenModel/IO/Gml.lean` vs the real code, networkx 
   gml_r    `readGraph(f, ty, 'gml')` (io.StringIO, or a real text-mode file: universal newlines): outcome class and
            the resulting cnfgen object (every view) and its name = the model's `readGml`
   gml_rt   read(write(G)) through the model = through the real code
+  dot_name (oracle only, pydot is third party) a bipartite graph with an odd name written in dot reads back
 The model is total and answers `OK U` ("unmodelled") outside its subset (float values that matter, multigraph, named
 character entities in strings that matter, nesting deeper than 100, ...).  There the harness does not compare — but
 texts produced by the structured generator WITHOUT such features must be modelled (an `OK U` there is a disagreement),
@@ -387,6 +388,26 @@ def build(suite, info):
         cls = apriori_class(text) or ("gml:" + info.get("kind", "") + (":U" if unm else ""))
         return Case(suite, r, impl, read_oracle(text, ty, u) if suite == "gml_r" else None, cls=cls,
                     nontrivial=any(c.isdigit() for c in text), info=info)
+    if suite == "dot_name":
+        # oracle only (pydot is third party): a bipartite graph with an odd NAME written in dot must read back
+        name, g = info["name"], info["g"]
+
+        def impl():
+            return ok("-")
+
+        def oracle():
+            G = base.make_graph("bipartite", g)
+            before = base.canon(G, "bipartite")
+            text = base.write_text(G, "bipartite", "dot", name)
+            try:
+                H = base.quiet(readGraph, io.StringIO(text), "bipartite", "dot")
+            except Exception as e:
+                return {"roundtrip": "reader raised " + type(e).__name__, "msg": str(e)[:120], "name": name, "text": text[:300]}
+            if base.canon(H, "bipartite") != before:
+                return {"roundtrip": "graph changed", "name": name, "text": text[:300]}
+            return None
+        cls = "dot:name-quote" if ('"' in name or name.endswith("\\")) else "dot:name"   # D45 (fixed) lived in the first class
+        return Case(suite, "ack3p", impl, oracle, cls=cls, nontrivial=True, info=info)
     raise ValueError("unknown suite " + suite)
 
 
@@ -791,6 +812,16 @@ def cases(ctx):
         s = rand_name(rng)
         if encodable(s):
             infos.append(("gml_esc", dict(s=s)))
+    # ---- dot: names of bipartite graphs (former defect D45, fixed in baae776: a double quote / a final backslash
+    # in the name broke the file; the round trip is demanded for EVERY name)
+    for name in ['a "b" c', 'x"', '"', "a\\", 'q" { 1 -- 2 } "', "plain", "two\nlines", "a;b", "} x", "graph", "é", "a b", "\\n", "{",
+                 '\\"', '""', "\\\\", 'a\\"b', '"\\', "'", "<b>", "a\tb", "-- ->", "[x=1]", "#c", "//c", "/*c*/", ""]:
+        infos.append(("dot_name", dict(name=name, g={"l": 2, "r": 1, "edges": [(2, 1)]})))
+    for _ in range(10 if quick else 200):
+        name = rand_name(rng)
+        if encodable(name):
+            g, _sh = base.gen_graph(rng, "bipartite", None, False)
+            infos.append(("dot_name", dict(name=name, g=g)))
     # ---- writer and round trip
     reps = 2 if quick else 14
     written = []
